@@ -101,3 +101,18 @@ def scalar_replay(cls, observe, expected_expr, tol=1e-9):
         return err > tol, {"class": cls, "constructor_args": vals, "observed": repr(obs),
                            "expected": repr(exp), "relative_error": err, "tolerance": tol}
     return replay
+
+
+def inherits(chk, shapes, derived, base, members, module=None):
+    """Dispatch census: a contract on `base.member` covers `derived` only while `derived` inherits that very function.  An override has no contract:
+    the clause is then undecided (never a violation by itself) and the bounded stand-ins run their thorough corpus."""
+    D, B = getattr(shapes, derived), getattr(shapes, base)
+    for m in members:
+        owner = next((k for k in B.__mro__ if m in k.__dict__), None)
+        if owner is None:
+            continue
+        is_prop = isinstance(owner.__dict__[m], property)
+        fkey = chk.function(owner.__module__, f"{owner.__name__}.{m}" + ("[get]" if is_prop else ""))
+        same = not any(m in k.__dict__ for k in D.__mro__[:D.__mro__.index(owner)])
+        chk.record(f"{derived}.{m}:is_the_verified_{owner.__name__}_function", fkey, "proved" if same else "unknown", "dispatch-census",
+                   detail="" if same else f"{derived} (or a class between it and {owner.__name__}) overrides {m}: the override is not under contract", model={})
